@@ -6,6 +6,7 @@ import progs
 import relcheck
 import flow
 import variants
+import render
 
 ASSUME = ["TLC evaluates the reference semantics (EQU = its defining expression, evaluated where it is defined) and the relation 'eq' correctly",
           "both variants are validated individually; EQU statements must own no bytes and must not move the location counter (checked at every p1 event)"]
@@ -178,6 +179,31 @@ def run(ctx):
                     b = R.add(pre + [sub(u) for u in uses("MSGQ")] + tail + [{"k": "label", "nm": "endp"}])
                 R.rel("eq", ["C11"], a=b, b=a)
                 nb += 1
+    # constants on both sides of 2^31 / 2^32 (bit 31 set, 2^32, 2^62): the literal program against the program that names every
+    # literal with an EQU, directly and through a chain; the values themselves are judged with the exact arithmetic of spec/Big.tla
+    import c06
+    wide = c06.gen_big(ctx, "d1")
+    more = c06.gen_big(ctx, "d2n")
+    rng.shuffle(more)
+    wide += more[:300 if quick else 4000]
+    for i in range(0, len(wide), 12):
+        chunk = wide[i:i + 12]
+        lit = [{"k": "org", "v": 0x7c00}] + [{"k": "datab", "mn": "DD", "e": t["e"], "defs": {}, "text": render.expr_min(t["e"])} for t in chunk]
+        defs, body = {}, []
+        for t in chunk:
+            body.append(c06.named_big(t["e"], defs))
+        chain = {}
+        eq = [{"k": "org", "v": 0x7c00}]
+        for nm, x in sorted(defs.items()):            # NAME EQU NAME_ ; NAME_ EQU literal  (defined before use, chain of two)
+            eq.append({"k": "equb", "nm": nm + "_", "e": x})
+            eq.append({"k": "equb", "nm": nm, "e": {"o": "id", "nm": nm + "_"}})
+            chain[nm + "_"] = x
+            chain[nm] = {"o": "id", "nm": nm + "_"}
+        eq += [{"k": "datab", "mn": "DD", "e": e, "defs": dict(chain), "text": render.expr_min(e)} for e in body]
+        a = R.add(lit + [{"k": "label", "nm": "endp"}])
+        b = R.add(eq + [{"k": "label", "nm": "endp"}])
+        R.rel("eq", ["C11"], a=a, b=b)
+        nb += 1
     R.run()
     ctx.widen_tags = ["C05", "C06", "C01"]
     return relcheck.finish(ctx, "C11", R, None,
